@@ -185,6 +185,8 @@ CLAIMED = {
              "strictly better; (passover) a field named like a member (field or argument-less method) of a structure the function reads "
              "from - foreign-crate types included, their field lists and inherent methods are extracted by the driver - is read from "
              "that member, not from a same-typed sibling (genesis_hash / referenced_block, script_sig / script_pubkey, txid / wtxid); "
+             "(order) zipped parallel lists are not reversed, skipped or re-ordered, and the control block is ControlBlock::serialize of "
+             "the argument; "
              "(args) same for same-typed arguments between the marshalling functions; (alloc) ElementsEnv::new builds "
              "the environment from new_tx(tx, utxos), new_tap_env(control_block, script_cmr), the genesis hash and the index, "
              "c_set_txEnv receives them in the C parameter order, and Drop for CTxEnv frees exactly the two malloc'ed objects once each. "
@@ -208,7 +210,8 @@ CLAIMED = {
              "(read from format_args templates and Display impls in MIR) is the token parse_expr maps back to that combinator; literal "
              "CMRs are carried into the assertion built from them; every token the type printer can emit (1, 2, every 2^k it can print, "
              "+, *, parentheses, postfix ? at operand level) has a rule in parse_type*; generated names lex as one symbol, are checked "
-             "against the program's own names, and every referenced node is printed; the parser's two length guards on a fail literal "
+             "against the program's own names, and every referenced node is printed; the arm of parse_inner for a resolved V builds "
+             "Inner::V; every `--` comment the printer writes ends its line; the parser's two length guards on a fail literal "
              "admit the 512 bits the printer always writes; str slices cannot split a character; parser "
              "recursion is reviewed. Found eight genuine defects (all repaired, see known_findings.json) and the input-depth recursions "
              "of the recursive-descent parser (known findings). Equality of types/encoding after re-parsing is not decided.",
@@ -218,9 +221,9 @@ CLAIMED = {
     "C19": dict(
         technique="formula extraction from MIR (terms, guard polarity, the `match deficit` as a piecewise table of intervals and affine expressions via path enumeration with interval constraints) and comparison with the formulas the property states; interval-exhaustive check of the extracted table against the CompactSize rule",
         text="Decides that the arithmetic written in src/analysis.rs is the arithmetic the property states, for every value of its "
-             "variables: get_budget is the consensus-encoded length of the stack plus 50; is_budget_valid compares milliweight with "
+             "variables: get_budget is the length of one consensus encoding of the whole stack plus 50; is_budget_valid compares milliweight with "
              "1000 x budget by <= with the cost on the left; cost->weight rounds up by 1000, weight->cost multiplies by 1000 and the "
-             "bitcoin::Weight conversions go through them (monotone by form); get_padding returns None exactly on the branch weight <= "
+             "bitcoin::Weight conversions go through them, a 64-bit weight is narrowed by a saturating conversion (monotone by form); get_padding returns None exactly on the branch weight <= "
              "budget and applies its table to weight - budget; the table, read off the MIR as intervals of the deficit with a constant / "
              "deficit - k / saturating expression each, partitions 1..=4294968 and yields for EVERY deficit the least annex length L "
              "with CompactSize(L) + L >= deficit (every integer of the bounded pieces checked on the extracted table, the unbounded "
